@@ -272,8 +272,8 @@ def _replay_chunk(edge_ids):
     out = []
     queries = 0
     for item in edge_ids:
-        # item = edge index, or (self-loop edge, following edge): BFS-tree paths never contain an edge that leaves
-        # the abstract state unchanged (a poll answered from the cache and lost again), so it is replayed first
+        # item = edge index, or (f, e) with f a NON-TREE edge into src(e) (a merging history or a self-loop such as a
+        # poll answered from the cache and lost again): replayed as path_to(src f) + f + e
         pre = []
         if isinstance(item, tuple):
             pre, ei = [g.edges[item[0]]], item[1]
@@ -283,7 +283,7 @@ def _replay_chunk(edge_ids):
         w = World()
         hist = []
         bad = []
-        for pe in g.path_to(e["_s"]) + pre:
+        for pe in g.path_to(pre[0]["_s"] if pre else e["_s"]) + pre:
             st, got = w.apply(pe["act"])
             hist.append(pe["act"])
         st, got = w.apply(e["act"])
@@ -308,7 +308,7 @@ def _cfg(spec, consts, invs=(), props=(), view=False):
             + ("VIEW View\n" if view else ""))
 
 
-def _b1(chk: Check, consts, label):
+def _b1(chk: Check, consts, label, pair_cap):
     global _G
     common.model_check(chk, "EventQueue_MC", _cfg("Spec", consts, INVS, PROPS), "EventQueue " + label)
     recs = common.export_records(chk, "EventQueue_MBT", _cfg("MSpec", consts, view=True), "EventQueue_MBT " + label)
@@ -324,9 +324,9 @@ def _b1(chk: Check, consts, label):
     if len(g.edges) < 100:
         raise common.MachineryError("EventQueue_MBT exported only %d edges" % len(g.edges))
     _G = g
-    pairs = g.selfloop_pairs()
+    pairs = g.merge_pairs(pair_cap)
     ids = g.reachable_edges() + pairs
-    chk.cov["b1_selfloop_pairs_replayed"] = chk.cov.get("b1_selfloop_pairs_replayed", 0) + len(pairs)
+    chk.cov["b1_merge_pairs_replayed"] = chk.cov.get("b1_merge_pairs_replayed", 0) + len(pairs)
     World()                         # import the implementation once, before forking
     gc.collect()
     gc.freeze()                     # the exported graph is shared read-only with the workers
@@ -367,7 +367,7 @@ def run(chk: Check):
         "events are identified by an extra key on the event map, which the proxy hands through untouched",
     ]
     if chk.tier == "quick":
-        _b1(chk, dict(MaxEv=4, MaxInj=2, MaxDown=1, Batches="1,2,3,4,5,6,7", Depth=7), "ev4-d7")
+        _b1(chk, dict(MaxEv=4, MaxInj=2, MaxDown=1, Batches="1,2,3,4,5,6,7", Depth=7), "ev4-d7", 8000)
     else:
-        _b1(chk, dict(MaxEv=5, MaxInj=2, MaxDown=1, Batches="1,2,3,4,5,6,7", Depth=9), "ev5-d9")
+        _b1(chk, dict(MaxEv=5, MaxInj=2, MaxDown=1, Batches="1,2,3,4,5,6,7", Depth=9), "ev5-d9", 60000)
     chk.cov["exhaustive"] = True
